@@ -56,7 +56,14 @@ def regenerate_guards(pid):
         old = target.read_text() if target.exists() else ""
         if text != old: target.write_text(text)
         info["changed_since_last_run"] = text != old
-        return "ok", "regenerated" if text != old else "unchanged", info
+        # …and what an item list puts into its pickled state (translate/py2lean_guards.py)
+        gt = LEAN_DIR / "LK" / "Generated" / "GuardsC15.lean"
+        try: gtext = py2lean_guards.generate("C15", os.path.dirname(lenskit.__file__))
+        except py2lean_guards.Unsupported as e: return "untranslatable", f"ItemList.__getstate__: {e}", info
+        gold = gt.read_text() if gt.exists() else ""
+        if gtext != gold: gt.write_text(gtext)
+        info["pickled_state"] = {"module": "LK.Gen.GuardsC15", "obligations": "LK/Proofs/GuardsC15.lean", "function": "data/items.py:ItemList.__getstate__ / __setstate__", "changed_since_last_run": gtext != gold}
+        return "ok", "regenerated" if (text != old or gtext != gold) else "unchanged", info
     if pid == "C20":
         import py2lean_neg
         info = {"module": "LK.Gen.NegC20", "obligations": "LK/Proofs/NegC20.lean", "sites": ["data/relationships.py:MatrixRelationshipSet.sample_negatives / _check_negatives / _check_negatives_and_resample → sampleT"]}
